@@ -22,7 +22,7 @@ func TestVerif(t *testing.T) {
 		Level: "model_checking",
 		Rule: "(a) every DAG of the exhaustive family U(n) x every root x every link-closed destination subset x Concurrency x API variant under the default schedule; " +
 			"(b) every curated collision shape (plus 'urls-layer': an ordinary layer whose descriptor lists mirror URLs next to a foreign layer) x pre-population x Concurrency under every schedule within the deviation bound of three base schedulers, " +
-			"including Copy with MapRoot / target-platform selection, and Copy into a destination that already holds the graph and whose destination reference already names another manifest of it (the unmapped root, or a manifest below the root); " +
+			"including CopyGraph into a destination that can mount blobs (mounted or copied after all is an input choice per blob and candidate repository; candidate lists: none, one, two, one twice, one and a blank), Copy with MapRoot / target-platform selection, and Copy into a destination that already holds the graph and whose destination reference already names another manifest of it (the unmapped root, or a manifest below the root); " +
 			"(c) curated shapes x ordered pairs of store kinds (memory, OCI layout, file, remote via Referrers API, remote via tag schema). Oracle: generator's own edge list. " +
 			"non-trivial = distinct (shape, root, pre-population, variant) scenario in which at least one node was actually transferred",
 		Assumptions: []string{
@@ -185,6 +185,17 @@ func jobs(tier string) []driver.Job {
 			}
 		}
 	}
+	// (b'') the destination can mount blobs from other repositories (registry.Mounter): whether a blob is
+	// mounted or copied after all is an input choice per blob and candidate; success still means a complete copy
+	for _, d := range family() {
+		if d.Name != "diamond" && d.Name != "two-mediatypes" && d.Name != "urls-layer" {
+			continue
+		}
+		for k := range MountCandidates {
+			s := scen{d: d, root: len(d.Nodes) - 1, conc: 2, api: fmt.Sprintf("graph-mount%d", k), src: "memory", dst: "memory"}
+			out = append(out, schedJob(s, explore.Bounds{Dev: 1}, []int{0}, 0, 1))
+		}
+	}
 	// (b') a context that is already cancelled, or cancelled while the root is resolved/mapped:
 	// whatever the call returns, success must still mean a complete copy
 	for _, d := range family() {
@@ -271,6 +282,12 @@ func (s scen) make(transferred *bool) (func(), func(*vs.Result) *driver.Fail) {
 		src, dst = srcS, dstS
 	}
 	opts := oras.CopyOptions{CopyGraphOptions: oras.CopyGraphOptions{Concurrency: s.conc}}
+	var mountEvents []string
+	if strings.HasPrefix(s.api, "graph-mount") {
+		k := int(s.api[len("graph-mount")] - '0')
+		dst = &MountDst{Dst: Dst{W: w, Inner: dstS}, Mounted: map[int]int{}, Events: &mountEvents}
+		opts.MountFrom = func(ctx context.Context, desc ocispec.Descriptor) ([]string, error) { return MountCandidates[k], nil }
+	}
 	wantRoot := s.root
 	dstRef := "ref"
 	expectErr := false
@@ -334,7 +351,7 @@ func (s scen) make(transferred *bool) (func(), func(*vs.Result) *driver.Fail) {
 			err = oras.CopyGraph(ctx, src, dst, rootDesc, opts.CopyGraphOptions)
 		} else if cancelled {
 			got, err = oras.Copy(ctx, src, "ref", dst, "", opts)
-		} else if s.api == "graph" {
+		} else if s.api == "graph" || strings.HasPrefix(s.api, "graph-mount") {
 			err = oras.CopyGraph(context.Background(), src, dst, rootDesc, opts.CopyGraphOptions)
 		} else {
 			got, err = oras.Copy(context.Background(), src, "ref", dst, map[bool]string{true: "other", false: ""}[s.api == "copyref"], opts)
@@ -370,7 +387,7 @@ func (s scen) make(transferred *bool) (func(), func(*vs.Result) *driver.Fail) {
 		if bad := CheckCopied(dstS, d, want); bad != "" {
 			return &driver.Fail{Sig: "success but a reachable node is missing or differs in the destination", Detail: s.name() + ": " + bad}
 		}
-		if s.api != "graph" && s.api != "graph-cancelled" {
+		if s.api != "graph" && s.api != "graph-cancelled" && !strings.HasPrefix(s.api, "graph-mount") {
 			wr := d.Nodes[wantRoot].Desc
 			if got.Digest != wr.Digest || got.Size != wr.Size || got.MediaType != wr.MediaType {
 				return &driver.Fail{Sig: "Copy returned a descriptor that is not the (mapped) root", Detail: fmt.Sprintf("%s: got %v want %v", s.name(), got, wr)}
